@@ -71,6 +71,23 @@ pub fn pem_der(pem: &[u8]) -> Vec<u8> {
     b64_decode(body.as_bytes())
 }
 
+/// base64 body (lines joined) of the first PEM section
+pub fn pem_body(pem: &[u8]) -> String {
+    let text = String::from_utf8_lossy(pem);
+    let mut body = String::new();
+    let mut inside = false;
+    for l in text.lines() {
+        if l.starts_with("-----BEGIN") {
+            inside = true;
+        } else if l.starts_with("-----END") {
+            break;
+        } else if inside {
+            body.push_str(l.trim());
+        }
+    }
+    body
+}
+
 /// The parts of a private key's DER that are actually secret: maximal segments all of whose
 /// 12-byte windows occur in none of the `public` blobs (certificates: ASN.1 headers, algorithm
 /// identifiers, the modulus / public point are public and legitimately appear in logs).
